@@ -21,9 +21,11 @@ META = {
                   'reachable. The same behaviours (TLC counterexamples for every known defect plus seeded simulations) are '
                   'executed on three real servers over real commit logs and NATS, and TLC re-evaluates the same invariants '
                   'on every recorded real state while comparing each recorded variable with the specified action (drift).',
-    'level_note': 'Controller decisions (which op is committed when) are played by the harness; Raft itself and NATS delivery '
-                  'are trusted; metadata ops are applied to all live replicas in one step (stale leader views are not '
-                  'explored); process-crash model (HW file = last checkpoint, log data kept); health timers replaced by '
+    'level_note': 'Controller decisions (which op is committed when) are played by the harness; Raft itself is trusted; NATS '
+                  'delivery is trusted except for replication responses (lost: FetchLost; delivered late - after a leader '
+                  'change, a crash, pause/resume: FetchHold / Deliver); a leader change may reach followers later than the '
+                  'new leader (StaleFetch / ApplyMeta), other metadata ops are applied to all live replicas in one step; '
+                  'process-crash model (HW file = last checkpoint, log data kept); health timers replaced by '
                   'explicit steps. Bounds: design check 2 messages x 2 elections x 2 crashes x 2 ISR ops (quick), deeper in '
                   'thorough; behaviours <= 16 steps.',
     'design_ref': 'DESIGN.md section 6/C02',
